@@ -50,6 +50,9 @@ func (mk *MemKeystore) Get(name string) (ci.PrivKey, error) {
 
 // Delete remove a key from the Keystore
 func (mk *MemKeystore) Delete(name string) error {
+	if _, ok := mk.keys[name]; !ok {
+		return ErrNoSuchKey
+	}
 	delete(mk.keys, name)
 	return nil
 }
